@@ -431,6 +431,145 @@ theorem prog_results {w0 : World Feature} {s : MSeq} (hs : WFSeq w0 s) (ops : Li
       · exact rest.2 r h
 
 
+/-! ### `Origin.Bytes` — replace-and-flag on the `*Origin`
+
+`(*Origin).Bytes()` rewrites the cell it is called on (`o.Buffer = q; o.Parsed = true`), and every
+operation calls it through `GenBank.Bytes()`.  What is observable through the accessors: -/
+
+/-- the text buffer the `Origin` was built over — and every other byte array — is never written
+(the residues go into a fresh array) -/
+theorem originBytes_frame (de : List UInt8 → List UInt8) (w : OWorld) (o : Nat) :
+    w.B <+: (originBytes de w o).2.B := by
+  unfold originBytes
+  split
+  · exact List.prefix_refl _
+  · split
+    · exact List.prefix_refl _
+    · split
+      · exact List.prefix_refl _
+      · exact prefix_write (prefix_snoc (List.prefix_refl _) _) (Nat.le_refl _) _ _
+
+/-- no other `*Origin` is touched -/
+theorem originBytes_others (de : List UInt8 → List UInt8) (w : OWorld) {o o' : Nat} (h : o ≠ o') :
+    (originBytes de w o).2.O[o']? = w.O[o']? := by
+  unfold originBytes
+  split
+  · rfl
+  · split
+    · rfl
+    · split
+      · rfl
+      · simp [List.getElem?_set_ne h]
+
+/-- `Bytes()` returns the value `Bytes()` would have returned before, and keeps returning it:
+the conversion is not observable through `Bytes()` -/
+theorem originBytes_obs (de : List UInt8 → List UInt8) (w : OWorld) (o : Nat) :
+    read (originBytes de w o).2.B (originBytes de w o).1 = obsBytes de w o ∧
+    obsBytes de (originBytes de w o).2 o = obsBytes de w o := by
+  unfold originBytes obsBytes
+  cases hc : w.O[o]? with
+  | none => simp [hc, read_nil]
+  | some c =>
+    by_cases hp : c.parsed = true
+    · simp [hc, hp]
+    · by_cases hl : c.buffer.len < 12
+      · simp [hc, hp, hl, read_nil]
+      · have ho : o < w.O.length := by
+          apply Decidable.byContradiction
+          intro hn
+          rw [List.getElem?_eq_none (by omega)] at hc
+          cases hc
+        have hrd : read (write (mk w.B (de (read w.B c.buffer)).length (de (read w.B c.buffer)).length).2
+            (mk w.B (de (read w.B c.buffer)).length (de (read w.B c.buffer)).length).1.arr
+            (mk w.B (de (read w.B c.buffer)).length (de (read w.B c.buffer)).length).1.off
+            (de (read w.B c.buffer)))
+            (mk w.B (de (read w.B c.buffer)).length (de (read w.B c.buffer)).length).1
+            = de (read w.B c.buffer) := by
+          have o0 := mk_owned (α := UInt8) (List.prefix_refl w.B) (Nat.le_refl (de (read w.B c.buffer)).length)
+          have o1 := write_owned o0 0 (de (read w.B c.buffer)) (by simp [mk])
+          rw [Nat.add_zero, overwrite_full _ _ (by simp)] at o1
+          exact o1.rd
+        simp only [hc, hp, hl, if_false, Bool.false_eq_true]
+        refine ⟨hrd, ?_⟩
+        simp only [List.getElem?_set_self ho, if_true]
+        exact hrd
+
+/-- a second call returns the same slice and changes nothing -/
+theorem originBytes_idem (de : List UInt8 → List UInt8) (w : OWorld) (o : Nat) :
+    originBytes de (originBytes de w o).2 o = ((originBytes de w o).1, (originBytes de w o).2) := by
+  cases hc : w.O[o]? with
+  | none => simp [originBytes, hc]
+  | some c =>
+    by_cases hp : c.parsed = true
+    · simp [originBytes, hc, hp]
+    · by_cases hl : c.buffer.len < 12
+      · simp [originBytes, hc, hp, hl]
+      · have ho : o < w.O.length := by
+          apply Decidable.byContradiction
+          intro hn
+          rw [List.getElem?_eq_none (by omega)] at hc
+          cases hc
+        have e : originBytes de w o =
+            ((mk w.B (de (read w.B c.buffer)).length (de (read w.B c.buffer)).length).1,
+             ⟨write (mk w.B (de (read w.B c.buffer)).length (de (read w.B c.buffer)).length).2
+                (mk w.B (de (read w.B c.buffer)).length (de (read w.B c.buffer)).length).1.arr
+                (mk w.B (de (read w.B c.buffer)).length (de (read w.B c.buffer)).length).1.off
+                (de (read w.B c.buffer)),
+              w.O.set o ⟨(mk w.B (de (read w.B c.buffer)).length (de (read w.B c.buffer)).length).1, true⟩⟩) := by
+          simp [originBytes, hc, hp, hl]
+        rw [e]
+        simp [originBytes, List.getElem?_set_self ho]
+
+/-- `Len()` reads the same before and after, given that the decoder produces
+`fromOriginLength(len(text))` residues (it fills `make([]byte, length)`) -/
+theorem originBytes_len (de : List UInt8 → List UInt8)
+    (hde : ∀ t, (de t).length = fromOriginLength t.length) (w : OWorld) (o : Nat)
+    (hwf : ∀ c, w.O[o]? = some c → WF w.B c.buffer) :
+    obsLen (originBytes de w o).2 o = obsLen w o := by
+  cases hc : w.O[o]? with
+  | none => simp [originBytes, obsLen, hc]
+  | some c =>
+    by_cases hp : c.parsed = true
+    · simp [originBytes, hc, hp]
+    · by_cases hl : c.buffer.len < 12
+      · simp [originBytes, hc, hp, hl]
+      · have ho : o < w.O.length := by
+          apply Decidable.byContradiction
+          intro hn
+          rw [List.getElem?_eq_none (by omega)] at hc
+          cases hc
+        have hlen := length_read (hwf c hc)
+        simp only [originBytes, obsLen, hc, hp, hl, if_false, Bool.false_eq_true,
+          List.getElem?_set_self ho, mk, if_true, hde, hlen]
+        have : c.buffer.len ≠ 0 := by omega
+        simp only [this, if_false]
+        split <;> simp_all
+
+/-- `String()` reads the same before and after exactly when the text is what `NewOrigin` prints
+for the residues it decodes to (always the case for an `Origin` made by `NewOrigin` or accepted
+by the GenBank parser — the layout property C16) -/
+theorem originBytes_string (en de : List UInt8 → List UInt8) (w : OWorld) (o : Nat)
+    (hcanon : ∀ c, w.O[o]? = some c → c.parsed = false → en (de (read w.B c.buffer)) = read w.B c.buffer) :
+    obsString en (originBytes de w o).2 o = obsString en w o := by
+  cases hc : w.O[o]? with
+  | none => simp [originBytes, obsString, hc]
+  | some c =>
+    by_cases hp : c.parsed = true
+    · simp [originBytes, hc, hp]
+    · by_cases hl : c.buffer.len < 12
+      · simp [originBytes, hc, hp, hl]
+      · have ho : o < w.O.length := by
+          apply Decidable.byContradiction
+          intro hn
+          rw [List.getElem?_eq_none (by omega)] at hc
+          cases hc
+        have hrd := (originBytes_obs de w o).1
+        simp only [originBytes, obsBytes, hc, hp, hl, if_false, Bool.false_eq_true] at hrd
+        simp only [originBytes, obsString, hc, hp, hl, if_false, Bool.false_eq_true,
+          List.getElem?_set_self ho, if_true]
+        rw [hrd]
+        exact hcanon c hc (by simpa using hp)
+
 /-! ### the PRE-REPAIR statements violate FRAME (the model can express the defect)
 
 Concrete heaps; the host/table has spare capacity 1, 2 and 3 (`0xEE` = 238 is the sentinel the
